@@ -255,4 +255,384 @@ theorem feed_dlen (env : Env) (st : St) (s : Bytes) (h : st.dlen ≤ Nq.Gen.REPO
   | nil => exact h
   | cons c r ih => unfold feed; exact ih _ (step_dlen env st c h)
 
+/-! ### the whole stream: simulation by the reference reader of `Nq.Spec.TB` -/
+
+abbrev dflt : Job := ⟨0, 0, 0, false, false, 0, 0⟩
+
+/-- the parts of the job table the report reader's decisions depend on never change -/
+def JobsSame (a b : List Job) : Prop :=
+  ∀ j, (a.getD j dflt).id = (b.getD j dflt).id ∧ (a.getD j dflt).dying = (b.getD j dflt).dying
+
+theorem JobsSame.refl (a : List Job) : JobsSame a a := fun _ => ⟨rfl, rfl⟩
+theorem JobsSame.trans {a b c : List Job} (h1 : JobsSame a b) (h2 : JobsSame b c) : JobsSame a c :=
+  fun j => ⟨(h1 j).1.trans (h2 j).1, (h1 j).2.trans (h2 j).2⟩
+
+theorem getD_set (l : List Job) (i j : Nat) (x : Job) :
+    (l.set i x).getD j dflt = if i = j ∧ i < l.length then x else l.getD j dflt := by
+  simp only [List.getD_eq_getElem?_getD, List.getElem?_set]
+  by_cases h1 : i = j
+  · by_cases h2 : i < l.length
+    · simp [h1, h2]; subst h1; simp [h2]
+    · subst h1
+      simp only [h2, and_false, if_false, if_true]
+      have : l[i]? = none := by simp; omega
+      simp [this]
+  · simp [h1]
+
+theorem set_same (l : List Job) (i : Nat) (x : Job) (hid : x.id = (l.getD i dflt).id) (hdy : x.dying = (l.getD i dflt).dying) :
+    JobsSame (l.set i x) l := by
+  intro j
+  rw [getD_set]
+  by_cases h : i = j ∧ i < l.length
+  · rw [if_pos h]; obtain ⟨h1, _⟩ := h; subst h1; exact ⟨hid, hdy⟩
+  · rw [if_neg h]; exact ⟨rfl, rfl⟩
+
+theorem getElem?_getD (l : List Job) (j : Nat) (jb : Job) (h : l[j]? = some jb) : l.getD j dflt = jb := by
+  simp [List.getD_eq_getElem?_getD, h]
+
+theorem jobClose_aux_jobs (st2 : St) (id ch now : Nat) (path : Bytes) :
+    (if (statOthers id (otherChannels ch) st2).2.2 = true
+        then ((statOthers id (otherChannels ch) st2).1, Ev.unlink path :: (statOthers id (otherChannels ch) st2).2.1)
+        else ((statOthers id (otherChannels ch) st2).1,
+              Ev.unlink path :: (statOthers id (otherChannels ch) st2).2.1 ++ [Ev.pq 2 id now])).1.jobs = st2.jobs := by
+  have hso := statOthers_frame id (otherChannels ch) st2
+  by_cases h4 : (statOthers id (otherChannels ch) st2).2.2 = true
+  · rw [if_pos h4]; exact hso.2.1
+  · rw [if_neg h4]; exact hso.2.1
+
+theorem JobsSame_of_eq {a b c : List Job} (h : a = b) (hs : JobsSame b c) : JobsSame a c := h ▸ hs
+
+theorem jobClose_jobs (env : Env) (st : St) (j : Nat) : JobsSame (jobClose env st j).1.jobs st.jobs := by
+  unfold jobClose
+  cases hj : st.jobs[j]? with
+  | none => exact JobsSame.refl _
+  | some jb =>
+    have hg := getElem?_getD _ _ _ hj
+    have hs : JobsSame (st.jobs.set j { jb with refs := jb.refs - 1 }) st.jobs :=
+      set_same _ _ _ (by rw [hg]) (by rw [hg])
+    simp only [setJob, nextPlan]
+    by_cases h1 : 0 < jb.refs - 1
+    · simp only [h1, if_true]; exact hs
+    · simp only [h1, if_false]
+      by_cases h2 : jb.hiteof = true ∧ jb.numtodo = 0
+      · rw [if_pos h2]
+        by_cases h3 : st.plan.headD 0 = 1
+        · simp only [h3, if_true]; exact hs
+        · simp only [h3, if_false]
+          exact JobsSame_of_eq (jobClose_aux_jobs _ jb.id jb.channel env.now _) hs
+      · rw [if_neg h2]; exact hs
+
+theorem attemptsOf_append (a b : List Ev) : attemptsOf (a ++ b) = attemptsOf a ++ attemptsOf b := by
+  induction a with
+  | nil => rfl
+  | cons e a ih => cases e <;> simp [attemptsOf, ih]
+
+theorem attemptsOf_quiet (evs : List Ev) (h : ∀ e ∈ evs, quiet e = true) : attemptsOf evs = [] := by
+  induction evs with
+  | nil => rfl
+  | cons e r ih =>
+    have he := h e (by simp)
+    have hr := ih (fun x hx => h x (by simp [hx]))
+    cases e <;> simp_all [attemptsOf, quiet]
+
+theorem finishReport_more (env : Env) (r : St × List Ev) (d j : Nat) :
+    attemptsOf (finishReport env r d j).2 = attemptsOf r.2 ∧ JobsSame (finishReport env r d j).1.jobs r.1.jobs := by
+  obtain ⟨_, hq⟩ := jobClose_frame env r.1 j
+  unfold finishReport
+  simp only [attemptsOf_append, attemptsOf_quiet _ hq]
+  exact ⟨by simp [attemptsOf], jobClose_jobs env r.1 j⟩
+
+theorem reportCore_K (env : Env) (st : St) (sl : Slot) (jb : Job) (text : Bytes) :
+    ∃ lg, reportCore env st sl jb 75 text =
+      (setJob (markdone env.chan st jb.id sl.mpos).1 sl.j { jb with numtodo := jb.numtodo - 1 },
+       Ev.log lg :: (markdone env.chan st jb.id sl.mpos).2) := by
+  unfold reportCore
+  rw [if_pos rfl]
+  exact ⟨_, rfl⟩
+
+theorem reportCore_D (env : Env) (st : St) (sl : Slot) (jb : Job) (text : Bytes) :
+    ∃ lg, reportCore env st sl jb 68 text =
+      (setJob (markdone env.chan st jb.id sl.mpos).1 sl.j { jb with numtodo := jb.numtodo - 1 },
+       Ev.log lg :: addbounce jb.id sl.recip text ++ (markdone env.chan st jb.id sl.mpos).2) := by
+  unfold reportCore
+  rw [if_neg (by decide), if_neg (by decide), if_pos rfl]
+  exact ⟨_, rfl⟩
+
+theorem reportCore_other (env : Env) (st : St) (sl : Slot) (jb : Job) (letter : Byte) (text : Bytes)
+    (h75 : letter ≠ 75) (h68 : letter ≠ 68) :
+    ∃ lg, reportCore env st sl jb letter text = (st, [Ev.log lg]) := by
+  unfold reportCore
+  rw [if_neg h75]
+  by_cases hZ : letter = 90
+  · rw [if_pos hZ]; exact ⟨_, rfl⟩
+  · rw [if_neg hZ, if_neg h68]; exact ⟨_, rfl⟩
+
+/-- the `switch` by letter: K and D try to mark this delivery's record (once; a failed open_write
+loses the mark), everything else tries nothing -/
+theorem reportCore_letter (env : Env) (st : St) (sl : Slot) (jb : Job) (letter : Byte) (text : Bytes)
+    (hjb : jb = st.jobs.getD sl.j dflt) :
+    JobsSame (reportCore env st sl jb letter text).1.jobs st.jobs ∧
+    ((letter = 75 ∨ letter = 68) →
+      attemptsOf (reportCore env st sl jb letter text).2 = [Clean.fmtqfn (chanaddr env.chan) jb.id true] ∧
+      (marksOf (reportCore env st sl jb letter text).2 = [(Clean.fmtqfn (chanaddr env.chan) jb.id true, sl.mpos)] ∨
+       marksOf (reportCore env st sl jb letter text).2 = [])) ∧
+    (¬(letter = 75 ∨ letter = 68) →
+      attemptsOf (reportCore env st sl jb letter text).2 = [] ∧ marksOf (reportCore env st sl jb letter text).2 = []) := by
+  have hm := markdone_frame env.chan st jb.id sl.mpos
+  have hdec : JobsSame (setJob (markdone env.chan st jb.id sl.mpos).1 sl.j { jb with numtodo := jb.numtodo - 1 }).jobs st.jobs := by
+    simp only [setJob]; rw [hm.2]
+    exact set_same _ _ _ (by rw [hjb]) (by rw [hjb])
+  by_cases hK : letter = 75
+  · subst hK
+    obtain ⟨lg, e⟩ := reportCore_K env st sl jb text
+    rw [e]
+    refine ⟨hdec, fun _ => ?_, fun h => absurd (Or.inl rfl) h⟩
+    rcases markdone_events env.chan st jb.id sl.mpos with h | ⟨t, h⟩ <;> rw [h] <;> simp [attemptsOf, marksOf]
+  · by_cases hD : letter = 68
+    · subst hD
+      obtain ⟨lg, e⟩ := reportCore_D env st sl jb text
+      rw [e]
+      refine ⟨hdec, fun _ => ?_, fun h => absurd (Or.inr rfl) h⟩
+      rcases markdone_events env.chan st jb.id sl.mpos with h | ⟨t, h⟩ <;> rw [h] <;> simp [attemptsOf, marksOf, addbounce]
+    · obtain ⟨lg, e⟩ := reportCore_other env st sl jb letter text hK hD
+      rw [e]
+      refine ⟨JobsSame.refl _, fun h => ?_, fun _ => by simp [attemptsOf, marksOf]⟩
+      rcases h with h | h
+      · exact absurd h hK
+      · exact absurd h hD
+
+/-- when does a report ask for a mark (the reference reader's condition) -/
+def wantsMark (jobs : List Job) (sl : Slot) (l : Byte) : Prop :=
+  l = 75 ∨ l = 68 ∨ (l = 90 ∧ (jobs.getD sl.j dflt).dying = true)
+
+theorem processLine_sim (env : Env) (st : St) (dl : Bytes) (jobs : List Job) (sl : Slot) (hJ : JobsSame st.jobs jobs)
+    (h : st.slots.getD (dl.headD 0).toNat none = some sl) :
+    JobsSame (processLine env st dl).1.jobs jobs ∧
+    (wantsMark jobs sl (dl.getD 1 0) →
+      attemptsOf (processLine env st dl).2 = [(entryOf env.chan jobs sl).1] ∧
+      (marksOf (processLine env st dl).2 = [entryOf env.chan jobs sl] ∨ marksOf (processLine env st dl).2 = [])) ∧
+    (¬ wantsMark jobs sl (dl.getD 1 0) →
+      attemptsOf (processLine env st dl).2 = [] ∧ marksOf (processLine env st dl).2 = []) := by
+  unfold processLine
+  simp only [h]
+  generalize hjb : st.jobs.getD sl.j ⟨0, 0, 0, false, false, 0, 0⟩ = jb
+  have hjb' : jb = st.jobs.getD sl.j dflt := hjb.symm
+  have hid : jb.id = (jobs.getD sl.j dflt).id := by rw [hjb']; exact (hJ sl.j).1
+  have hdy : jb.dying = (jobs.getD sl.j dflt).dying := by rw [hjb']; exact (hJ sl.j).2
+  generalize hletter : (if dl.getD 1 0 = 90 ∧ jb.dying = true then (68 : Byte) else dl.getD 1 0) = letter
+  generalize htext : (if dl.getD 1 0 = 90 ∧ jb.dying = true then dl.dropLast.drop 2 ++ DYINGMSG else cstr2 (dl.drop 2)) = text
+  obtain ⟨c1, c2, c3⟩ := reportCore_letter env st sl jb letter text hjb'
+  obtain ⟨f1, f2⟩ := finishReport_more env (reportCore env st sl jb letter text) (dl.headD 0).toNat sl.j
+  obtain ⟨_, _, _, f4, _, _⟩ := finishReport_spec env st (reportCore env st sl jb letter text) (dl.headD 0).toNat sl.j
+    (reportCore_spec env st sl jb letter text).1
+  have hent : entryOf env.chan jobs sl = (Clean.fmtqfn (chanaddr env.chan) jb.id true, sl.mpos) := by
+    unfold entryOf; rw [hid]
+  have hiff : (letter = 75 ∨ letter = 68) ↔ wantsMark jobs sl (dl.getD 1 0) := by
+    unfold wantsMark
+    rw [← hletter, ← hdy]
+    by_cases hz : dl.getD 1 0 = 90 ∧ jb.dying = true
+    · rw [if_pos hz]
+      constructor
+      · intro _; exact Or.inr (Or.inr hz)
+      · intro _; exact Or.inr rfl
+    · rw [if_neg hz]
+      constructor
+      · intro hh; rcases hh with hh | hh
+        · exact Or.inl hh
+        · exact Or.inr (Or.inl hh)
+      · intro hh; rcases hh with hh | hh | hh
+        · exact Or.inl hh
+        · exact Or.inr hh
+        · exact absurd hh hz
+  refine ⟨(f2.trans c1).trans hJ, ?_, ?_⟩
+  · intro hw
+    obtain ⟨a1, a2⟩ := c2 (hiff.mpr hw)
+    rw [f1, f4, hent]
+    exact ⟨a1, a2⟩
+  · intro hw
+    obtain ⟨a1, a2⟩ := c3 (fun hh => hw (hiff.mp hh))
+    rw [f1, f4]
+    exact ⟨a1, a2⟩
+
+/-- the simulation relation between the model state and the reference reader's state -/
+def Rel (jobs : List Job) (st : St) (rst : RefSt) : Prop :=
+  rst.rev = st.drev ∧ rst.n = st.dlen ∧ rst.slots = st.slots ∧ JobsSame st.jobs jobs
+
+theorem step_sim (env : Env) (jobs : List Job) (st : St) (rst : RefSt) (ch : Byte) (hR : Rel jobs st rst) :
+    attemptsOf (step env st ch).2 = (refStep env.chan jobs rst ch).2.map (·.1) ∧
+    (marksOf (step env st ch).2).Sublist (refStep env.chan jobs rst ch).2 ∧
+    Rel jobs (step env st ch).1 (refStep env.chan jobs rst ch).1 := by
+  obtain ⟨r1, r2, r3, r4⟩ := hR
+  obtain ⟨rrev, rn, rslots⟩ := rst
+  simp only at r1 r2 r3
+  subst r1 r2 r3
+  -- the state after the byte has been appended (and the line cut to REPORTMAX)
+  generalize hst1 : (if st.dlen < Nq.Gen.REPORTMAX then { st with drev := ch :: st.drev, dlen := st.dlen + 1 } else st) = st1
+  have hslots : st1.slots = st.slots := by rw [← hst1]; split <;> rfl
+  have hjobs : st1.jobs = st.jobs := by rw [← hst1]; split <;> rfl
+  have href : (if st.dlen < Nq.Gen.REPORTMAX then ({ rev := ch :: st.drev, n := st.dlen + 1, slots := st.slots } : RefSt)
+      else { rev := st.drev, n := st.dlen, slots := st.slots }) = { rev := st1.drev, n := st1.dlen, slots := st.slots } := by
+    rw [← hst1]; split <;> rfl
+  unfold step refStep
+  simp only [hst1, href]
+  by_cases hc : ch = 0 ∧ st1.dlen > 1
+  · rw [if_pos hc, if_pos hc]
+    try simp only
+    cases hs : st.slots.getD ((st1.drev.reverse.headD 0).toNat) none with
+    | none =>
+      have hs' : ({ st1 with drev := [], dlen := 0 } : St).slots.getD ((st1.drev.reverse.headD 0).toNat) none = none := by
+        show st1.slots.getD _ none = none
+        rw [hslots]; exact hs
+      rw [processLine_unused env _ _ hs']
+      refine ⟨by simp [attemptsOf], by simp [marksOf], rfl, rfl, ?_, ?_⟩
+      · show st.slots = st1.slots
+        exact hslots.symm
+      · show JobsSame st1.jobs jobs
+        rw [hjobs]; exact r4
+    | some sl =>
+      have hs' : ({ st1 with drev := [], dlen := 0 } : St).slots.getD ((st1.drev.reverse.headD 0).toNat) none = some sl := by
+        show st1.slots.getD _ none = some sl
+        rw [hslots]; exact hs
+      have hJ' : JobsSame ({ st1 with drev := [], dlen := 0 } : St).jobs jobs := by
+        show JobsSame st1.jobs jobs
+        rw [hjobs]; exact r4
+      obtain ⟨p1, p2, p3⟩ := processLine_sim env _ st1.drev.reverse jobs sl hJ' hs'
+      obtain ⟨u1, u2, u3, _⟩ := processLine_used env _ st1.drev.reverse sl hs'
+      have hrel : Rel jobs (processLine env { st1 with drev := [], dlen := 0 } st1.drev.reverse).1
+          { rev := [], n := 0, slots := st.slots.set ((st1.drev.reverse.headD 0).toNat) none } := by
+        refine ⟨u1.symm, u2.symm, ?_, p1⟩
+        rw [u3]
+        show st.slots.set _ none = st1.slots.set _ none
+        rw [hslots]
+      simp only []
+      by_cases hw : wantsMark jobs sl (st1.drev.reverse.getD 1 0)
+      · obtain ⟨a1, a2⟩ := p2 hw
+        have hcond : (st1.drev.reverse.getD 1 0 = 75 ∨ st1.drev.reverse.getD 1 0 = 68 ∨
+            (st1.drev.reverse.getD 1 0 = 90 ∧ (jobs.getD sl.j ⟨0, 0, 0, false, false, 0, 0⟩).dying = true)) := hw
+        rw [if_pos hcond]
+        refine ⟨by rw [a1]; rfl, ?_, hrel⟩
+        rcases a2 with a2 | a2 <;> rw [a2]
+        · exact List.Sublist.refl _
+        · exact List.nil_sublist _
+      · obtain ⟨a1, a2⟩ := p3 hw
+        have hcond : ¬ (st1.drev.reverse.getD 1 0 = 75 ∨ st1.drev.reverse.getD 1 0 = 68 ∨
+            (st1.drev.reverse.getD 1 0 = 90 ∧ (jobs.getD sl.j ⟨0, 0, 0, false, false, 0, 0⟩).dying = true)) := hw
+        rw [if_neg hcond]
+        exact ⟨by rw [a1]; rfl, by rw [a2]; exact List.nil_sublist _, hrel⟩
+  · rw [if_neg hc, if_neg hc]
+    refine ⟨by simp [attemptsOf], by simp [marksOf], rfl, rfl, ?_, ?_⟩
+    · show st.slots = st1.slots
+      exact hslots.symm
+    · show JobsSame st1.jobs jobs
+      rw [hjobs]; exact r4
+
+theorem feed_sim (env : Env) (jobs : List Job) (st : St) (rst : RefSt) (s : Bytes) (hR : Rel jobs st rst) :
+    attemptsOf (feed env st s).2 = (refRun env.chan jobs rst s).map (·.1) ∧
+    (marksOf (feed env st s).2).Sublist (refRun env.chan jobs rst s) := by
+  induction s generalizing st rst with
+  | nil => simp [feed, refRun, attemptsOf, marksOf]
+  | cons c r ih =>
+    obtain ⟨s1, s2, s3⟩ := step_sim env jobs st rst c hR
+    obtain ⟨i1, i2⟩ := ih _ _ s3
+    simp only [feed, refRun, attemptsOf_append, marksOf_append, List.map_append]
+    exact ⟨by rw [s1, i1], List.Sublist.append s2 i2⟩
+
+/-! ### the reference reader only marks deliveries in flight, each at most once (multiset inclusion) -/
+
+theorem count_inflight_set (c : Nat) (jobs : List Job) (slots : List (Option Slot)) (d : Nat) (sl : Slot)
+    (h : slots.getD d none = some sl) (x : Bytes × Nat) :
+    (inflight c jobs (slots.set d none)).count x + (if (entryOf c jobs sl == x) = true then 1 else 0)
+      = (inflight c jobs slots).count x := by
+  induction slots generalizing d with
+  | nil => simp at h
+  | cons a r ih =>
+    cases d with
+    | zero =>
+      simp only [List.getD_cons_zero] at h
+      subst h
+      simp [inflight, List.filterMap_cons, List.count_cons]
+    | succ n =>
+      simp only [List.getD_cons_succ] at h
+      have := ih n h
+      simp only [inflight] at this ⊢
+      cases a with
+      | none => simpa [List.filterMap_cons] using this
+      | some v => simp only [List.set_cons_succ, List.filterMap_cons, Option.map_some, List.count_cons]; omega
+
+theorem refStep_sub (c : Nat) (jobs : List Job) (rst : RefSt) (ch : Byte) (x : Bytes × Nat) :
+    (refStep c jobs rst ch).2.count x + (inflight c jobs (refStep c jobs rst ch).1.slots).count x
+      ≤ (inflight c jobs rst.slots).count x := by
+  unfold refStep
+  generalize hst1 : (if rst.n < Nq.Gen.REPORTMAX then { rst with rev := ch :: rst.rev, n := rst.n + 1 } else rst) = st1
+  have hslots : st1.slots = rst.slots := by rw [← hst1]; split <;> rfl
+  simp only []
+  by_cases hc : ch = 0 ∧ st1.n > 1
+  · rw [if_pos hc]
+    cases hs : st1.slots.getD ((st1.rev.reverse.headD 0).toNat) none with
+    | none => simp only []; rw [hslots]; simp
+    | some sl =>
+      simp only []
+      have hcnt := count_inflight_set c jobs st1.slots _ sl hs x
+      rw [hslots] at hcnt
+      rw [hslots]
+      by_cases hw : (st1.rev.reverse.getD 1 0 = 75 ∨ st1.rev.reverse.getD 1 0 = 68 ∨
+          (st1.rev.reverse.getD 1 0 = 90 ∧ (jobs.getD sl.j ⟨0, 0, 0, false, false, 0, 0⟩).dying = true))
+      · rw [if_pos hw]
+        simp only [List.count_cons, List.count_nil]
+        omega
+      · rw [if_neg hw]
+        simp only [List.count_nil]
+        omega
+  · rw [if_neg hc]; rw [hslots]; simp
+
+theorem refRun_sub (c : Nat) (jobs : List Job) (rst : RefSt) (s : Bytes) (x : Bytes × Nat) :
+    (refRun c jobs rst s).count x ≤ (inflight c jobs rst.slots).count x := by
+  induction s generalizing rst with
+  | nil => simp [refRun]
+  | cons ch r ih =>
+    have h1 := refStep_sub c jobs rst ch x
+    have h2 := ih (refStep c jobs rst ch).1
+    simp only [refRun, List.count_append]
+    omega
+
+theorem subMultiset_of_count {α : Type} [BEq α] (xs pool : List α) (h : ∀ x, xs.count x ≤ pool.count x) :
+    subMultiset xs pool = true := by
+  unfold subMultiset
+  rw [List.all_eq_true]
+  intro x _
+  simpa using h x
+
+/-- **the whole stream** -/
+theorem feed_stream (env : Env) (st : St) (s : Bytes) (h0 : st.drev = []) (h1 : st.dlen = 0) :
+    sendStrict env.chan st.jobs st.slots s (feed env st s).2 = true ∧
+    subMultiset (marksOf (feed env st s).2) (inflight env.chan st.jobs st.slots) = true := by
+  have hR : Rel st.jobs st { slots := st.slots } := ⟨h0.symm, h1.symm, rfl, JobsSame.refl _⟩
+  obtain ⟨a1, a2⟩ := feed_sim env st.jobs st _ s hR
+  constructor
+  · unfold sendStrict refMarks
+    rw [a1]
+    simp only [beq_self_eq_true, Bool.true_and]
+    exact List.isSublist_iff_sublist.mpr a2
+  · apply subMultiset_of_count
+    intro x
+    exact Nat.le_trans (List.Sublist.count_le x a2) (refRun_sub env.chan st.jobs { slots := st.slots } s x)
+
+theorem processLine_writesOK (env : Env) (st : St) (dl : Bytes) : writesOK (processLine env st dl).2 = true := by
+  cases h : st.slots.getD (dl.headD 0).toNat none with
+  | none => rw [processLine_unused env st dl h]; rfl
+  | some sl => exact (processLine_used env st dl sl h).2.2.2.2.2.1
+
+theorem step_writesOK (env : Env) (st : St) (ch : Byte) : writesOK (step env st ch).2 = true := by
+  unfold step
+  generalize (if st.dlen < Nq.Gen.REPORTMAX then { st with drev := ch :: st.drev, dlen := st.dlen + 1 } else st) = st1
+  simp only []
+  by_cases hc : ch = 0 ∧ st1.dlen > 1
+  · rw [if_pos hc]; exact processLine_writesOK _ _ _
+  · rw [if_neg hc]; rfl
+
+theorem feed_writesOK (env : Env) (st : St) (s : Bytes) : writesOK (feed env st s).2 = true := by
+  induction s generalizing st with
+  | nil => rfl
+  | cons c r ih => simp only [feed, writesOK_append, step_writesOK, ih, Bool.and_self]
+
 end Nq.Lemmas.SendL
